@@ -60,21 +60,23 @@ type Machine struct {
 	methodMemo    map[methodKey]*ssa.Function
 	envIndex      map[*ssa.Function]map[ssa.Value]int
 
-	path         *Path
-	journal      []undo
-	journaling   bool
-	Steps        int64
-	StepBudget   int64
-	FuncHits     map[string]int64
-	SkippedInits map[string]bool
-	pools        map[*value][]value
-	IntrHits     map[string]int64
-	Trace        bool
-	depth        int
-	Params       map[string]int64
-	KnownListed  map[string]bool
-	Witness      bool
-	witnessed    map[string]bool
+	path             *Path
+	journal          []undo
+	journaling       bool
+	Steps            int64
+	StepBudget       int64
+	FuncHits         map[string]int64
+	SkippedInits     map[string]bool
+	pools            map[*value][]value
+	IntrHits         map[string]int64
+	Trace            bool
+	depth            int
+	Params           map[string]int64
+	KnownListed      map[string]bool
+	Witness          bool
+	TolerantInit     func(pkgPath string) bool
+	jsonAppendString *ssa.Function
+	witnessed        map[string]bool
 }
 
 type methodKey struct {
@@ -99,6 +101,7 @@ func NewMachine(prog *ssa.Program, solver *Solver) *Machine {
 		StepBudget:   200_000_000,
 	}
 	registerIntrinsics(m)
+	registerModels(m)
 	return m
 }
 
@@ -148,6 +151,11 @@ func (m *Machine) global(g *ssa.Global) *value {
 	if g.Pkg != nil && !m.inited[g.Pkg] {
 		if m.InitAllow != nil && m.InitAllow(g.Pkg.Pkg.Path()) {
 			m.initPackage(g.Pkg)
+			if p, ok := m.globals[g]; ok {
+				return p
+			}
+		} else if m.TolerantInit != nil && m.TolerantInit(g.Pkg.Pkg.Path()) {
+			m.initPackageTolerant(g.Pkg)
 			if p, ok := m.globals[g]; ok {
 				return p
 			}
@@ -260,6 +268,10 @@ func (m *Machine) callSSA(caller *frame, pos token.Pos, fn *ssa.Function, args [
 	if fn.Pkg != nil && fn.Name() == "init" && fn.Synthetic != "" {
 		// package initializer reached through an importing package's init
 		if m.InitAllow == nil || !m.InitAllow(fn.Pkg.Pkg.Path()) {
+			if m.TolerantInit != nil && m.TolerantInit(fn.Pkg.Pkg.Path()) {
+				m.initPackageTolerant(fn.Pkg)
+				return nil
+			}
 			m.SkippedInits[fn.Pkg.Pkg.Path()] = true
 			return nil
 		}
@@ -293,6 +305,8 @@ func (m *Machine) callSSA(caller *frame, pos token.Pos, fn *ssa.Function, args [
 	if fn.Pkg != nil && !m.inited[fn.Pkg] && fn.Name() != "init" {
 		if m.InitAllow != nil && m.InitAllow(fn.Pkg.Pkg.Path()) {
 			m.initPackage(fn.Pkg)
+		} else if m.TolerantInit != nil && m.TolerantInit(fn.Pkg.Pkg.Path()) {
+			m.initPackageTolerant(fn.Pkg)
 		}
 	}
 	m.FuncHits[name]++
